@@ -607,7 +607,7 @@ impl<'a> Gen<'a> {
         let n = self.rng.range(1, 4);
         let fs = self.fields(0, tr, n, false);
         r.shape = Shape::Struct(fs);
-        let n_names = self.rng.weighted(&[0, 6, 3, 1]);
+        let n_names = if tr == Trait::Attributes { self.rng.weighted(&[0, 6, 3, 1]) } else { self.rng.weighted(&[2, 6, 3, 1]) };
         let pool = ["attr_a", "attr_b", "cfgx", "my_crate"];
         let mut names: Vec<&str> = pool.to_vec();
         self.rng.shuffle(&mut names);
@@ -624,10 +624,10 @@ impl<'a> Gen<'a> {
                 }
                 2 | 3 => {
                     let list = match self.rng.below(8) {
-                        0 => vec![],
-                        1 => vec!["doc".to_string()],
+                        0 | 1 => vec![],
+                        5 => vec!["doc".to_string()],
                         2 => vec!["doc".to_string(), "allow".to_string()],
-                        3 => vec!["other".to_string(), r.attr_names[0].clone()],
+                        3 if !r.attr_names.is_empty() => vec!["other".to_string(), r.attr_names[0].clone()],
                         _ => vec!["other".to_string(), "doc".to_string()],
                     };
                     r.forward = Fwd::Only(list);
@@ -639,6 +639,12 @@ impl<'a> Gen<'a> {
                 }
                 _ => {}
             }
+        }
+        if self.profile.forward_attrs && tr != Trait::Attributes && self.rng.chance(1, 10) {
+            // corner shape: nothing to read, nothing to forward, but a field that must still be filled
+            r.attr_names.clear();
+            r.forward = Fwd::Only(vec![]);
+            r.attrs_field = Some(self.rng.chance(1, 3));
         }
         if self.profile.supports && matches!(tr, Trait::DeriveInput | Trait::Variant) && self.rng.chance(2, 3) {
             r.supports = Some(self.shape_words(tr));
